@@ -5,5 +5,5 @@ From NV.gen Require Import Gen_C09.
 Lemma gen_c09_spec :
   gen_insert_locks_row = true /\ gen_locks_before_changes = true /\ gen_undo_before_change = true /\
   gen_rollback_reverse = true /\ gen_phase_checked = true /\ gen_undo_btree_guarded = true /\
-  gen_undo_captures_id = true /\ gen_sweep_keeps_other_locks = true.
+  gen_undo_captures_id = true /\ gen_sweep_keeps_other_locks = true /\ gen_undo_bypasses_budget = true.
 Proof. repeat split; reflexivity. Qed.
